@@ -7,9 +7,20 @@
 
    What each theorem contributes:
    - C15_html_trim_spec: the text node (NHtml) writes exactly [trim_spec ...] of its text,
-     where trim_spec (Spec/SpecTrim.v) is written from the sentence above; the options count
-     only for texts of the template that is executed itself (owner = id of the last template
-     of the chain), as in pongo2, where the options rewrite that template's tokens.
+     where trim_spec (Spec/SpecTrim.v) is written from the sentence above; the options are
+     those of the template that is executed (the last template of the frame's chain
+     base <- ... <- child) and they count for the texts of EVERY template of that chain (owner
+     = id of any member: [owned_by_chain], Spec/SpecTrim.v), as in pongo2 after fix D42, where
+     the options rewrite the tokens of the executed template and of all templates it extends
+     (before the fix: only its own tokens, so the text of an extended base - which is the
+     document that gets rendered - was left alone).
+   - C15_block_options_cover_chain: hence a text of any member of the chain is rewritten under
+     exactly the two flags of the last member.  C15_block_options_cover_parents (fix D42): for
+     a chain [base; ...; child] of any length, a text of the base is rewritten under the
+     child's TrimBlocks / LStripBlocks exactly like a text of the child itself.
+     C15_example_block_options_cover_parents runs it through the whole pipeline: a child that
+     only extends base.tpl, TrimBlocks on, renders what base.tpl rendered directly renders, and
+     what base.tpl with the newlines deleted by hand renders without the option.
    - C15_trim_removes_only_outer_space / C15_html_substring: the output is the text minus a
      prefix and a suffix that consist of white space only - no other byte changes.
    - C15_dash_left / C15_dash_right / C15_dash_idem: a marker = deleting that white space from
@@ -39,11 +50,29 @@ Theorem C15_html_trim_spec :
   forall se globals f st fr pre entry owner val trimL trimR after before,
     top_frame st = Ok fr -> f_chain fr = pre ++ [entry] ->
     exec_node se globals (S f) st (NHtml owner val trimL trimR after before) =
-      xok (trim_spec ((tpl_id entry =? owner) && tpl_trim entry)
-                     ((tpl_id entry =? owner) && tpl_lstrip entry)
+      xok (trim_spec (owned_by_chain (map tpl_id (pre ++ [entry])) owner && tpl_trim entry)
+                     (owned_by_chain (map tpl_id (pre ++ [entry])) owner && tpl_lstrip entry)
                      trimL trimR after before val) st.
 Proof. exact tie_html_trim_spec. Qed.
 Print Assumptions C15_html_trim_spec.
+
+Theorem C15_block_options_cover_chain :
+  forall se globals f st fr pre entry m val trimL trimR after before,
+    top_frame st = Ok fr -> f_chain fr = pre ++ [entry] -> In m (pre ++ [entry]) ->
+    exec_node se globals (S f) st (NHtml (tpl_id m) val trimL trimR after before) =
+      xok (trim_spec (tpl_trim entry) (tpl_lstrip entry) trimL trimR after before val) st.
+Proof. exact tie_html_trim_member. Qed.
+Print Assumptions C15_block_options_cover_chain.
+
+Theorem C15_block_options_cover_parents :
+  forall se globals f st fr base mid child val trimL trimR after before,
+    top_frame st = Ok fr -> f_chain fr = base :: mid ++ [child] ->
+    exec_node se globals (S f) st (NHtml (tpl_id base) val trimL trimR after before) =
+      xok (trim_spec (tpl_trim child) (tpl_lstrip child) trimL trimR after before val) st /\
+    exec_node se globals (S f) st (NHtml (tpl_id base) val trimL trimR after before) =
+    exec_node se globals (S f) st (NHtml (tpl_id child) val trimL trimR after before).
+Proof. exact tie_html_cover_parents. Qed.
+Print Assumptions C15_block_options_cover_parents.
 
 Theorem C15_trim_removes_only_outer_space : forall tb ls tl tr af bf val,
   exists a b, val = a ++ trim_spec tb ls tl tr af bf val ++ b /\
@@ -195,6 +224,42 @@ Example C15_example_hypotheses :
     exec_node (world_senv w_plain) [] 1 st (NHtml 7 [10; 32; 120; 32; 9] false true true true) =
       xok [32; 120] st.
 Proof. eexists. split; [reflexivity|]. split; vm_compute; reflexivity. Qed.
+
+(* the hypotheses of C15_block_options_cover_parents are met by a frame whose chain has three
+   members with different ids and different flags: the text is owned by the base (id 3, no
+   option of its own) and is rewritten under the options of the child (id 7, both on); a text
+   owned by no member of the chain (id 9) is left alone *)
+Example C15_example_cover_parents_hypotheses :
+  let base := Tpl 3 [98] false [] [] [] None false false in
+  let mid := Tpl 5 [109] false [] [] [] (Some base) true false in
+  let child := Tpl 7 [99] false [] [] [] (Some mid) true true in
+  let fr := mkF [] [] true 0 1 [base; mid; child] in
+  let st := mkM [fr] [] (mkG 8 []) in
+  top_frame st = Ok fr /\ f_chain fr = base :: [mid] ++ [child] /\
+  exec_node (world_senv w_plain) [] 1 st (NHtml 3 [10; 32; 120; 32; 9] false false true true) =
+    xok [32; 120] st /\
+  exec_node (world_senv w_plain) [] 1 st (NHtml 7 [10; 32; 120; 32; 9] false false true true) =
+    xok [32; 120] st /\
+  exec_node (world_senv w_plain) [] 1 st (NHtml 9 [10; 32; 120; 32; 9] false false true true) =
+    xok [10; 32; 120; 32; 9] st.
+Proof. repeat split; vm_compute; reflexivity. Qed.
+
+(* fix D42 through the whole pipeline (lexer, parser, loader, executor).  The only file is
+   base.tpl = "a\n{% if x %}\nb{% endif %}\nc"; the executed template is the string
+   {% extends "base.tpl" %}; x is true.  With TrimBlocks on, the newline after each of the
+   base's two block tags is deleted although the base is not the executed template: the output
+   is that of base.tpl rendered directly with TrimBlocks, and that of the base with these two
+   newlines deleted by hand rendered without the option.  Without the option nothing is
+   deleted. *)
+Example C15_example_block_options_cover_parents :
+  api_render_string d42_world_trim d42_child_src d42_ctx = OOk [97; 10; 98; 99] (* a\nbc *) /\
+  api_render_string d42_world_trim d42_child_src d42_ctx =
+    api_render_file d42_world_trim [98; 97; 115; 101; 46; 116; 112; 108] (* base.tpl *) d42_ctx /\
+  api_render_string d42_world_trim d42_child_src d42_ctx =
+    api_render_string d42_world_plain d42_base_by_hand d42_ctx /\
+  api_render_string d42_world_plain d42_child_src d42_ctx =
+    OOk [97; 10; 10; 98; 10; 99] (* a\n\nb\nc *).
+Proof. repeat split; vm_compute; reflexivity. Qed.
 
 (* ================= end to end: a dash marker equals deleting the whitespace by hand ================= *)
 (* Property C15, end to end - a "-" marker equals deleting the white space by hand.
